@@ -216,7 +216,7 @@ func TestMain(m *testing.M) {
 func sequentialBaseline(pool *ops.Pool) map[string]string {
 	baseline := map[string]string{}
 	for _, k := range ops.OpKinds {
-		if k == "encode" {
+		if strings.HasPrefix(k, "encode") {
 			for i := range pool.Specs {
 				for _, be := range []bool{false, true} {
 					op := ops.Op{Kind: k, Idx: i, BE: be}
@@ -364,7 +364,7 @@ func TestC09(t *testing.T) {
 				for j := 0; j < n; j++ {
 					k := ops.OpKinds[d.Int(0, len(ops.OpKinds)-1, "kind")]
 					op := ops.Op{Kind: k}
-					if k == "encode" {
+					if strings.HasPrefix(k, "encode") {
 						op.Idx = d.Int(0, len(pool.Specs)-1, "spec")
 						op.BE = d.Bool("be")
 					} else {
